@@ -56,6 +56,7 @@ let nfail = ref 0
 let stats : (string, int) Hashtbl.t = Hashtbl.create 32
 let bump ?(by = 1) k = Hashtbl.replace stats k (by + (try Hashtbl.find stats k with Not_found -> 0))
 let inv_cache : (string, bool) Hashtbl.t = Hashtbl.create 64
+let last_rv : (n * n) option ref = ref None   (* concurrent runs: (snapshot, seqno of the superversion it resolved to) *)
 let table_extra : (int, n * n) Hashtbl.t = Hashtbl.create 64      (* table id -> created_at (ns), file size *)
 let table_blob_bytes : (int, n) Hashtbl.t = Hashtbl.create 64     (* table id -> referenced on-disk blob bytes *)
 let version_blobs : (string, (int * int * int * int) list * (int * int * int * int) list) Hashtbl.t = Hashtbl.create 16
@@ -555,7 +556,20 @@ let () =
        bump "writes";
        hist := { e = { ukey = bytes_of_hex k; seq = n_of_string s; ty = ty_of_code ty; val0 = bytes_of_hex v }; born = None; dead = None } :: !hist
      | [ "IW"; k; ty; v ] -> pending_ingest := (bytes_of_hex k, ty_of_code ty, bytes_of_hex v) :: !pending_ingest
+     | "STATC" :: kvs -> List.iter (fun kv -> match String.split_on_char '=' kv with
+         | [ k; v ] -> bump ~by:(int_of_string v) k | _ -> ()) kvs
      | [ "WM"; w ] -> wm := n_of_string w
+     | [ "RV"; sq; svq; hs ] ->
+       last_rv := Some (n_of_string sq, n_of_string svq);
+       (* the snapshot must resolve to the newest retained superversion with seqno < S *)
+       let s' = n_of_string sq in
+       let seqs = List.map n_of_string (String.split_on_char ',' hs) in
+       let want = if N.eqb s' N0 then (match seqs with x :: _ -> Some x | [] -> None)
+         else List.fold_left (fun acc x -> if N.ltb x s' then Some x else acc) None seqs in
+       bump "resolutions_checked";
+       (match want with
+        | Some w when N.eqb w (n_of_string svq) -> ()
+        | _ -> fail "resolve-sv" (Printf.sprintf "S=%s resolved to superversion %s, history seqnos %s" sq svq hs))
      | [ "NOW"; secs ] -> now_secs := n_of_string secs
      | "SKIP" :: _ -> bump "skipped"
      | [ "F"; k; v; verdict ] -> bump "filter_calls"; pending_f := (k, v, verdict) :: !pending_f
@@ -661,14 +675,23 @@ let () =
        let k' = bytes_of_hex k and s' = n_of_string s in
        let is_snap = not (N.eqb s' sEQ_MAX) && Hashtbl.fold (fun _ v acc -> acc || N.eqb v s') snaps false in
        let expect = match spec_get (h_at s') k' s' with None -> "." | Some e -> "v:" ^ hex_of_bytes e.val0 in
-       if expect <> res then fail ~snap:is_snap "oracle-get" (Printf.sprintf "key=%s S=%s impl=%s spec=%s" k s res expect);
+       (* known finding K2 (late write): the expected entry has a seqno ABOVE the seqno of the
+          superversion the snapshot resolved to, i.e. it was inserted (by a writer that had
+          drawn its seqno earlier) into a memtable only newer superversions reference *)
+       let late = (match !last_rv, spec_get (h_at s') k' s' with
+           | Some (rs, rsv), Some e when N.eqb rs s' -> N.ltb rsv e.seq
+           | Some (rs, rsv), None when N.eqb rs s' ->
+             (match newest k' s' (h_at s') with Some e -> N.ltb rsv e.seq | None -> false)
+           | _ -> false) in
+       if expect <> res then fail ~snap:is_snap (if late then "latewrite-get" else "oracle-get") (Printf.sprintf "key=%s S=%s impl=%s spec=%s" k s res expect);
+       if not (late && expect <> res) then
        (match expect, _contains, _size with
         | ".", c, z -> if c <> "0" || z <> "." then fail ~snap:is_snap "oracle-contains" (Printf.sprintf "key=%s contains=%s size=%s" k c z)
         | _, c, z ->
           let len = match spec_get (h_at s') k' s' with Some e -> List.length e.val0 | None -> 0 in
           if c <> "1" || z <> string_of_int len then fail ~snap:is_snap "oracle-contains" (Printf.sprintf "key=%s contains=%s size=%s want=%d" k c z len));
        (match version_for_snapshot !cur s' with
-        | None -> fail ~snap:is_snap "nosv" (Printf.sprintf "S=%s" s)
+        | None -> if !cur <> [] then fail ~snap:is_snap "nosv" (Printf.sprintf "S=%s" s)
         | Some sv ->
           let raw = sv_get_raw all_true sv k' s' in
           (match raw with
@@ -708,7 +731,12 @@ let () =
           bump "scans_model_checked";
           if m_s <> results then drift "model-prefix" (Printf.sprintf "%s impl=[%s] model=[%s]" p (String.concat " " results) (String.concat " " m_s))
         | _ -> ());
-       if want_s <> results then
+       let late_scan = (match !last_rv with
+           | Some (rs, rsv) when N.eqb rs s' -> List.exists (fun e -> N.ltb rsv e.seq && N.ltb e.seq s') (h_at s')
+           | _ -> false) in
+       if want_s <> results && late_scan then
+         fail ~snap:is_snap ("latewrite-" ^ kind) (Printf.sprintf "S=%s (a write above the resolved superversion's seqno exists below the snapshot)" s)
+       else if want_s <> results then
          fail ~snap:is_snap ("oracle-" ^ kind) (Printf.sprintf "%s impl=[%s] spec=[%s]" (String.concat " " (List.filteri (fun j _ -> j < 3) rest)) (String.concat " " results) (String.concat " " want_s))
      | [ "O"; "len"; s; r ] ->
        bump "lens";
